@@ -8,7 +8,7 @@ rsync -a --delete --exclude .git --exclude replays "$V"/ $SV/
 git -C /repo worktree remove --force $SR 2>/dev/null; git -C /repo worktree add -q --detach $SR $HEAD || exit 2
 sed -i "s|path = \"/repo\"|path = \"$SR\"|" $SV/harness/Cargo.toml
 (cd $SV && JB_REPO=$SR bin/setup >/dev/null 2>&1)
-ks="$*"; [ -z "$ks" ] && ks="01 02 03 04 05 06 07 08 09 10 11 12 13"
+ks="$*"; [ -z "$ks" ] && ks="01 02 03 04 05 06 07 08 09 10 11 12 13 14"
 bad=0
 for k in $ks; do
   git -C $SR checkout -q -- .
